@@ -1298,6 +1298,75 @@ def g_radshock():
         args = sorted(free_vars(e))
         text += '\n' + emit_function(pfx, args, e, comment='%s.__init__: self.sound' % cname)
         js[pfx] = {'args': args, 'expr': expr_to_json(e)}
+        if cname == 'RadShock':
+            # the non-dimensional radiation constants of the model
+            for attr in ('P0', 'C0'):
+                e2 = interp.selfo.attrs.get(attr)
+                if not is_expr(e2):
+                    raise Unsupported('radshock.RadShock: no numeric attribute %s' % attr)
+                a2 = sorted(free_vars(e2))
+                text += '\n' + emit_function('rs_' + attr, a2, e2, comment='RadShock.__init__: self.%s' % attr)
+                text += '#[global] Hint Unfold rs_%s : epgen.\n' % attr
+                js['rs_' + attr] = {'args': a2, 'expr': expr_to_json(e2)}
+            for attr in ('ar', 'c'):
+                e2 = interp.selfo.attrs.get(attr)
+                if not (is_expr(e2) and not free_vars(e2)):
+                    raise Unsupported('radshock.RadShock: constant %s' % attr)
+                text += '\n' + emit_function('rs_const_' + attr, [], e2, comment='RadShock.__init__: self.%s' % attr)
+                js['rs_const_' + attr] = {'args': [], 'expr': expr_to_json(e2)}
+    # far-downstream equilibrium state: the two residuals handed to fsolve, and the attributes computed from its root
+    from py2coq import Interp
+    mod3 = Module(os.path.join(S, 'radshocks/utils.py'))
+    de = None
+    for st in mod3.classes['RadShockProfile'].body:
+        if isinstance(st, ast.FunctionDef) and st.name == 'downstream_equilibrium':
+            de = st
+    if de is None:
+        raise Unsupported('radshocks/utils.py: RadShockProfile.downstream_equilibrium not found')
+    selfo = Obj('', {'M0': ('var', 'M0'), 'gamma': ('var', 'gamma'), 'P0': ('var', 'P0')}, frozen=False, name='self')
+    env = {'self': selfo}
+    interp = Interp(mod3, {})
+    nested = {}
+    tail = []
+    seen_fsolve = 0
+    for st in de.body:
+        if isinstance(st, ast.FunctionDef):
+            nested[st.name] = st
+        elif isinstance(st, ast.Assign) and any(isinstance(n, ast.Attribute) and n.attr == 'fsolve' for n in ast.walk(st.value)):
+            seen_fsolve += 1
+            src = ast.unparse(st)
+            if seen_fsolve == 3:
+                if not src.startswith('(rho1, T1) = scipy.optimize.fsolve(momentum_and_energy,') and not src.startswith('rho1, T1 = scipy.optimize.fsolve(momentum_and_energy,'):
+                    raise Unsupported('downstream_equilibrium: third fsolve is %s' % src[:80])
+                env['rho1'] = ('var', 'rho1'); env['T1'] = ('var', 'T1')
+        elif seen_fsolve < 3:
+            interp.exec_body([st], env)
+        else:
+            tail.append(st)
+    if seen_fsolve != 3 or 'momentum_and_energy' not in nested:
+        raise Unsupported('downstream_equilibrium: structure changed')
+    env2 = dict(env, x=[('var', 'rho'), ('var', 'T')])
+    ret = interp.exec_body(nested['momentum_and_energy'].body, env2)
+    if not (isinstance(ret, (list, tuple)) and len(ret) == 2 and all(is_expr(v) for v in ret)):
+        raise Unsupported('downstream_equilibrium.momentum_and_energy does not return two scalars')
+    for nm, e in zip(('rs_down_momentum', 'rs_down_energy'), ret):
+        a = [v for v in ('M0', 'gamma', 'P0', 'rho', 'T') if v in free_vars(e)]
+        if set(free_vars(e)) - set(a):
+            raise Unsupported('downstream_equilibrium: stray variables in %s' % nm)
+        text += '\n' + emit_function(nm, a, e, comment='RadShockProfile.downstream_equilibrium: residual handed to fsolve, x = (rho, T)')
+        text += '#[global] Hint Unfold %s : epgen.\n' % nm
+        js[nm] = {'args': a, 'expr': expr_to_json(e)}
+    interp.exec_body(tail, env)
+    if interp.raises:
+        raise Unsupported('downstream_equilibrium raises')
+    for attr in ('Pr1', 'Er1', 'M1', 'speed1', 'rho1', 'T1'):
+        e = selfo.attrs.get(attr)
+        if not is_expr(e):
+            raise Unsupported('downstream_equilibrium: attribute %s' % attr)
+        a = [v for v in ('M0', 'gamma', 'P0', 'rho1', 'T1') if v in free_vars(e)]
+        text += '\n' + emit_function('rs_down_' + attr, a, e, comment='RadShockProfile.downstream_equilibrium: self.%s from the root (rho1, T1)' % attr)
+        text += '#[global] Hint Unfold rs_down_%s : epgen.\n' % attr
+        js['rs_down_' + attr] = {'args': a, 'expr': expr_to_json(e)}
     return {'RadShock': (text, js)}
 
 
